@@ -131,7 +131,12 @@ func (it Item) label() string {
 // item if nothing stands out. How the input ends (cut, end of message or end of
 // connection) is part of the scenario but not of the class. It never contains
 // a seed or an offset.
-func (s *Scn) HostileClass() string {
+func (s *Scn) HostileClass() string { return s.HostileClassFor("") }
+
+// HostileClassFor names the class with the violated obligation in mind: a cap
+// violation is about the over-long value, a spin / runaway allocation about the
+// count or length that drives the loop.
+func (s *Scn) HostileClassFor(kind string) string {
 	n := len(s.Items)
 	switch s.Fam {
 	case "text", "watch":
@@ -149,6 +154,13 @@ func (s *Scn) HostileClass() string {
 	}
 	isAdEp := s.Fam == "ad" || s.Ep == "SrvFirst" || s.Ep == "CliServerAd"
 	best, bestRank := "", 0
+	sizeBonus, numBonus := 0, 0
+	switch kind {
+	case KCap:
+		sizeBonus = 5
+	case KSpin, KAlloc, KCrash:
+		numBonus = 5
+	}
 	consider := func(rank int, lab string) {
 		if rank >= bestRank && rank > 0 {
 			best, bestRank = lab, rank
@@ -165,11 +177,11 @@ func (s *Scn) HostileClass() string {
 			case it.P == "neg1" || it.P == "minInt":
 				consider(10, "strlen:"+it.P)
 			case afterMarker && (it.N == "big" || it.P == "i32max" || it.P == "two62" || it.P == "over"):
-				consider(9, "secret:"+it.label())
+				consider(9+sizeBonus, "secret:"+it.label())
 			case it.P == "i32max" || it.P == "two62" || it.P == "over":
 				consider(6, "strlen:"+it.P)
 			case it.N == "big" || it.N == "capP1" || it.N == "cap":
-				consider(5, it.label())
+				consider(5+sizeBonus, it.label())
 			case it.P == "short" || it.P == "zero":
 				consider(3, "strlen:"+it.P)
 			case it.T == "F":
@@ -178,9 +190,9 @@ func (s *Scn) HostileClass() string {
 		case "int":
 			if hostileNum(it.C) {
 				if isAdEp {
-					consider(8, "count="+it.C)
+					consider(8+numBonus, "count="+it.C)
 				} else {
-					consider(8, "len="+it.C)
+					consider(8+numBonus, "len="+it.C)
 				}
 			}
 		}
@@ -207,7 +219,7 @@ func (s *Scn) HostileClass() string {
 // Signature of a failure: spec, entry point, mode, violated obligation,
 // hostile class. Mutated inputs are reported under class "mutated".
 func Signature(j *Job, kind string) map[string]string {
-	cls := j.B.Scn.HostileClass()
+	cls := j.B.Scn.HostileClassFor(kind)
 	if j.Mut != 0 {
 		cls = "mutated"
 	}
